@@ -169,13 +169,12 @@ Lemma retis_path0_acc e0 e1 allowed old1 streams path0 streams1 calls :
     first_frame old1 = Some f10 /\ second_frame old1 = Some f11 /\ streams = s0 :: streams1 /\
     pts path0 = rev (firstn k s0) ++ [dump dumpf DSecond f11] /\
     maxlen path0 = e_maxlen e0 /\ torigin path0 = 0 /\
-    (2 <= k)%nat /\ (k + 1 < e_maxlen e0)%nat /\ (k <= e_maxlen e1 - 1)%nat /\ (k <= length s0)%nat /\
-    (forall f, In f (firstn (k - 1) s0) -> crossedb (e_i0 e0) (e_i2 e0) f = false) /\
-    ((k < e_maxlen e1 - 1)%nat -> stops_at (e_i0 e0) (e_i2 e0) s0 k) /\
+    (2 <= k)%nat /\ (k + 1 < e_maxlen e0)%nat /\ (k <= length s0)%nat /\
+    stops_at (e_i0 e0) (e_i2 e0) s0 k /\
     (e_scL e0 = false -> has_L_start_end path0 e0 = false) /\
-    calls = [mkCall E0 (copy_frame 0 f10) true (e_i0 e0) (e_i2 e0) (e_maxlen e1 - 1) k].
+    calls = [mkCall E0 (copy_frame 0 f10) true (e_i0 e0) (e_i2 e0) (e_maxlen e0 - 1) k].
 Proof.
-  unfold retis_path0. destruct (first_frame old1) as [f10|]; [|discriminate].
+  unfold retis_path0, retis_path0_g. destruct (first_frame old1) as [f10|]; [|discriminate].
   destruct allowed.
   - destruct (engine_call _ _ streams _ true _ _) as [[[ptmp str1] c]|] eqn:E; [|discriminate].
     destruct (second_frame old1) as [f11|]; [|discriminate].
@@ -201,19 +200,21 @@ Proof.
       assert (Hl0 : plen P0 = (k + 1)%nat).
       { unfold plen. rewrite A1, app_length, firstn_rev_length by exact Ekl. reflexivity. }
       split; [reflexivity|]. exists f10, f11, s0, k.
-      repeat split; try assumption; try lia; try congruence.
-      * match goal with H : (k < _)%nat |- _ => destruct (Estop H) as (_ & _ & HH); exact HH end.
-      * intros HscL. rewrite HscL in EL. exact EL.
+      assert (Hst : stops_at (e_i0 e0) (e_i2 e0) s0 k) by (apply Estop; lia).
+      split; [reflexivity|]. split; [reflexivity|]. split; [reflexivity|]. split; [exact A1|].
+      split; [congruence|]. split; [congruence|]. split; [lia|]. split; [lia|]. split; [exact Ekl|].
+      split; [exact Hst|]. split; [|reflexivity].
+      intros HscL. rewrite HscL in EL. exact EL.
     + exfalso. apply Hne. unfold plen. rewrite A1. fold (plen P). rewrite HlenP. lia.
   - destruct (second_frame old1) as [f11|]; [|discriminate].
-    set (tmp := fst (append (empty_path (e_maxlen e1 - 1) 0) (copy_frame 0 f10))).
+    set (tmp := fst (append (empty_path (e_maxlen e0 - 1) 0) (copy_frame 0 f10))).
     set (P := fst (append_all (empty_path (e_maxlen e0) 0) (rev (pts tmp)))).
     pose proof (append_spec P (dump dumpf DSecond f11)) as (A1 & A2 & A3).
     set (P0 := fst (append P (dump dumpf DSecond f11))) in *.
     assert (Hl : (plen P0 <= 2)%nat).
     { assert (Ht : (length (pts tmp) <= 1)%nat).
-      { unfold tmp. pose proof (append_spec (empty_path (e_maxlen e1 - 1) 0) (copy_frame 0 f10)) as (B & _).
-        rewrite B. cbn [empty_path plen pts length maxlen]. destruct (0 <? e_maxlen e1 - 1)%nat; cbn; lia. }
+      { unfold tmp. pose proof (append_spec (empty_path (e_maxlen e0 - 1) 0) (copy_frame 0 f10)) as (B & _).
+        rewrite B. cbn [empty_path plen pts length maxlen]. destruct (0 <? e_maxlen e0 - 1)%nat; cbn; lia. }
       assert (HP : (plen P <= 1)%nat).
       { unfold plen, P. rewrite append_all_from_empty, firstn_length, rev_length. lia. }
       unfold plen in *. rewrite A1. destruct (length (pts P) <? maxlen P)%nat; [rewrite app_length; cbn [length]|]; lia. }
@@ -286,7 +287,7 @@ Lemma retis_acc_inv e0 e1 old0 old1 streams draws sp0 sp1 st calls nd :
     retis_path1 dumpf e0 e1 (is_R ep) (sp_path old0) streams1 = Ok (sp_path sp1, ACC, streams2, calls1) /\
     st = ACC /\ sp_status sp0 = ACC /\ sp_status sp1 = ACC /\ calls = calls0 ++ calls1.
 Proof.
-  unfold retis_swap_zero.
+  unfold retis_swap_zero, retis_swap_zero_g. change (retis_path0_g dumpf true) with (retis_path0 dumpf).
   destruct (end_point (sp_path old0) (e_i0 e0) (e_i2 e0)) as [ep|]; [|discriminate].
   destruct (lm1_early e0 (sp_path old0)) eqn:Eearly; [discriminate|].
   destruct (retis_path0 dumpf e0 e1 (is_R ep) (sp_path old1) streams) as [[[[path0 st0] str1] calls0]|] eqn:E0; [|discriminate].
@@ -345,14 +346,13 @@ Definition retis_acc_shape (e0 e1 : ens) (old0 old1 new0 new1 : path)
     maxlen new0 = e_maxlen e0 /\ torigin new0 = 0 /\
     map erase (pts new1) = erase (dump dumpf DSecondLast f0m2) :: map erase (firstn k1 s1) /\
     maxlen new1 = e_maxlen e1 /\ torigin new1 = 0 /\
-    (2 <= k0 <= length s0)%nat /\ (k0 + 1 < e_maxlen e0)%nat /\ (k0 <= e_maxlen e1 - 1)%nat /\
-    (forall f, In f (firstn (k0 - 1) s0) -> crossedb (e_i0 e0) (e_i2 e0) f = false) /\
-    ((k0 < e_maxlen e1 - 1)%nat -> stops_at (e_i0 e0) (e_i2 e0) s0 k0) /\
+    (2 <= k0 <= length s0)%nat /\ (k0 + 1 < e_maxlen e0)%nat /\
+    stops_at (e_i0 e0) (e_i2 e0) s0 k0 /\
     (2 <= k1 <= length s1)%nat /\ (k1 + 1 < e_maxlen e1)%nat /\
     stops_at (e_i0 e1) (e_i2 e1) s1 k1 /\
     (e_scL e0 = false -> has_L_start_end new0 e0 = false) /\
     end_point old0 (e_i0 e0) (e_i2 e0) = Some SR /\ lm1_early e0 old0 = false /\
-    calls = [mkCall E0 (copy_frame 0 f10) true (e_i0 e0) (e_i2 e0) (e_maxlen e1 - 1) k0;
+    calls = [mkCall E0 (copy_frame 0 f10) true (e_i0 e0) (e_i2 e0) (e_maxlen e0 - 1) k0;
              mkCall E1 (copy_frame 0 f0l) false (e_i0 e1) (e_i2 e1) (e_maxlen e1 - 1) k1].
 
 Theorem retis_acc_struct e0 e1 old0 old1 streams draws sp0 sp1 st calls nd :
@@ -363,7 +363,7 @@ Proof.
   intros H. apply retis_acc_inv in H.
   destruct H as (ep & str1 & str2 & calls0 & calls1 & Hep & Hearly & H0 & H1 & Hst & Hs0 & Hs1 & Hcalls).
   apply retis_path0_acc in H0.
-  destruct H0 as (Hall & f10 & f11 & s0 & k0 & Hf10 & Hf11 & Hstr & Hp0 & Hm0 & Ht0 & Hk0 & Hk0m & Hk0m1 & Hk0l & Hpre0 & Hstop0 & HL & Hc0).
+  destruct H0 as (Hall & f10 & f11 & s0 & k0 & Hf10 & Hf11 & Hstr & Hp0 & Hm0 & Ht0 & Hk0 & Hk0m & Hk0l & Hstop0 & HL & Hc0).
   apply retis_path1_acc in H1.
   destruct H1 as (_ & f0l & f0m2 & s1 & k1 & Hf0l & Hf0m2 & Hstr1 & Hp1 & Hm1 & Ht1 & Hk1 & Hk1m & Hk1l & Hstop1 & Hc1).
   destruct (first_second_shape _ _ _ Hf10 Hf11) as (tl1 & Hold1).
@@ -389,7 +389,7 @@ Theorem retis_junction_frames e0 e1 old0 old1 new0 new1 streams calls :
     map c_init calls = [copy_frame 0 f10; copy_frame 0 f0l] /\ map c_rev calls = [true; false].
 Proof.
   intros (f10 & f11 & tl1 & pre0 & f0m2 & f0l & s0 & s1 & rest & k0 & k1 & Ho1 & Ho0 & Hs & Hp0 & _ & _ & Hp1 & _ & _ &
-          Hk0 & _ & _ & _ & _ & Hk1 & _ & _ & _ & _ & _ & Hc).
+          Hk0 & _ & _ & Hk1 & _ & _ & _ & _ & _ & Hc).
   destruct s0 as [|g0 r0]; [cbn in Hk0; lia|]. destruct s1 as [|g1 r1]; [cbn in Hk1; lia|].
   destruct k0 as [|k0]; [lia|]. destruct k1 as [|k1]; [lia|].
   cbn [firstn rev map] in Hp0, Hp1.
@@ -463,7 +463,6 @@ Qed.
 
 Theorem retis_swap_valid e0 e1 old0 old1 new0 new1 streams calls :
   retis_acc_shape e0 e1 old0 old1 new0 new1 streams calls ->
-  (e_maxlen e0 <= e_maxlen e1)%nat ->
   e_i0 e0 <= e_i1 e0 <= e_i2 e0 ->
   (forall f10 f11 tl, pts old1 = f10 :: f11 :: tl -> e_i2 e0 <= ford f11) ->
   (forall pre a b, pts old0 = pre ++ [a; b] -> ford a <= e_i0 e1) ->
@@ -477,9 +476,9 @@ Theorem retis_swap_valid e0 e1 old0 old1 new0 new1 streams calls :
      (b < e_i0 e1 \/ e_i2 e1 < b)).
 Proof.
   intros (f10 & f11 & tl1 & pre0 & f0m2 & f0l & s0 & s1 & rest & k0 & k1 & Ho1 & Ho0 & Hs & Hp0 & Hm0 & _ & Hp1 & Hm1 & _ &
-          Hk0 & Hk0m & _ & _ & Hstop0 & Hk1 & Hk1m & Hstop1 & HL & _ & _ & _) Hml Hord H11 H0m2.
+          Hk0 & Hk0m & Hstop0 & Hk1 & Hk1m & Hstop1 & HL & _ & _ & _) Hord H11 H0m2.
   split.
-  - assert (Hst : stops_at (e_i0 e0) (e_i2 e0) s0 k0) by (apply Hstop0; lia).
+  - pose proof Hstop0 as Hst.
     pose proof Hst as (_ & Hpre & _).
     destruct (stops_at_split _ _ _ _ Hst) as (lastf & _ & Hc & Hf & Hlen).
     rewrite Hf, rev_app_distr in Hp0. cbn [rev app] in Hp0.
@@ -551,7 +550,7 @@ Theorem lm1_reject e0 e1 old0 old1 :
   forall streams draws,
     retis_swap_zero dumpf e0 e1 old0 old1 streams draws = Out false old0 old1 ZML [] 0.
 Proof.
-  intros Hord Hearly streams draws. unfold retis_swap_zero. rewrite Hearly.
+  intros Hord Hearly streams draws. unfold retis_swap_zero, retis_swap_zero_g. rewrite Hearly.
   apply (lm1_early_spec _ _ Hord) in Hearly. destruct Hearly as (_ & _ & pre & o & E & _).
   unfold end_point. destruct (Z.ltb_spec (e_i2 e0) (e_i0 e0)); [lia|].
   rewrite E, rev_app_distr. reflexivity.
@@ -587,7 +586,7 @@ Lemma quantis_complete_status e0 e1 tmp0 tmp1 sc streams calls nd acc p0 p1 st c
   quantis_complete e0 e1 tmp0 tmp1 sc streams calls nd = Out acc p0 p1 st calls' nd' ->
   st <> QEA /\ nd' = nd /\ (acc = true -> st = ACC) /\ exists extra, calls' = calls ++ extra.
 Proof.
-  unfold quantis_complete.
+  unfold quantis_complete, quantis_complete_g.
   destruct (first_frame tmp0); [|discriminate].
   destruct (negb sc).
   { intros H; inversion H; subst. split; [discriminate|]. split; [reflexivity|]. split; [discriminate|].
@@ -630,7 +629,7 @@ Theorem quantis_energy_rule e0 e1 b0 b1 old0 old1 streams draws acc p0 p1 st cal
     (st <> QEA <-> (e_accept_all e0 = true \/ (u <= 1 /\ u <= E)%Q)) /\
     (acc = true -> st = ACC).
 Proof.
-  unfold quantis_swap_zero.
+  unfold quantis_swap_zero, quantis_swap_zero_g. change (quantis_complete_g true) with quantis_complete.
   destruct (first_frame (sp_path old1)) as [f10|] eqn:Ef10; [|discriminate].
   destruct (last2_frame (sp_path old0)) as [f0m2|] eqn:Ef0m2; [|discriminate].
   destruct (is_none _ || is_none _); [intros H; inversion H|].
@@ -739,7 +738,7 @@ Theorem retis_swap_complete e0 e1 old0 old1 s0 s1 rest draws f10 f11 tl1 pre0 f0
   pts (sp_path old0) = pre0 ++ [f0m2; f0l] ->
   end_point (sp_path old0) (e_i0 e0) (e_i2 e0) = Some SR ->
   lm1_early e0 (sp_path old0) = false ->
-  stops_at (e_i0 e0) (e_i2 e0) s0 k0 -> (2 <= k0)%nat -> (k0 + 1 < e_maxlen e0)%nat -> (k0 <= e_maxlen e1 - 1)%nat ->
+  stops_at (e_i0 e0) (e_i2 e0) s0 k0 -> (2 <= k0)%nat -> (k0 + 1 < e_maxlen e0)%nat ->
   stops_at (e_i0 e1) (e_i2 e1) s1 k1 -> (2 <= k1)%nat -> (k1 + 1 < e_maxlen e1)%nat ->
   (e_scL e0 = false ->
    has_L_start_end (mkP (rev (firstn k0 s0) ++ [dump dumpf DSecond f11]) (e_maxlen e0) 0) e0 = false) ->
@@ -750,10 +749,11 @@ Theorem retis_swap_complete e0 e1 old0 old1 s0 s1 rest draws f10 f11 tl1 pre0 f0
     retis_swap_zero dumpf e0 e1 old0 old1 (s0 :: s1 :: rest) draws =
     Out true (mkSP (mkP (rev (firstn k0 s0) ++ [dump dumpf DSecond f11]) (e_maxlen e0) 0) ACC 1)
              (mkSP path1 ACC 1) ACC
-        [mkCall E0 (copy_frame 0 f10) true (e_i0 e0) (e_i2 e0) (e_maxlen e1 - 1) k0;
+        [mkCall E0 (copy_frame 0 f10) true (e_i0 e0) (e_i2 e0) (e_maxlen e0 - 1) k0;
          mkCall E1 (copy_frame 0 f0l) false (e_i0 e1) (e_i2 e1) (e_maxlen e1 - 1) k1] 0.
 Proof.
-  intros Ho1 Ho0 Hep Hearly Hst0 Hk0 Hk0m Hk0m1 Hst1 Hk1 Hk1m HL Hwf.
+  intros Ho1 Ho0 Hep Hearly Hst0 Hk0 Hk0m Hst1 Hk1 Hk1m HL Hwf.
+  assert (Hk0m1 : (k0 <= e_maxlen e0 - 1)%nat) by lia.
   apply orb_false_iff in Hwf as [Hwf0 Hwf1].
   assert (Hl0 : (k0 <= length s0)%nat).
   { destruct Hst0 as (_ & _ & lf & Hn & _). assert (k0 - 1 < length s0)%nat by (apply nth_error_Some; congruence). lia. }
@@ -762,8 +762,8 @@ Proof.
   (* path0 *)
   assert (E0 : retis_path0 dumpf e0 e1 true (sp_path old1) (s0 :: s1 :: rest) =
                Ok (mkP (rev (firstn k0 s0) ++ [dump dumpf DSecond f11]) (e_maxlen e0) 0, ACC, s1 :: rest,
-                   [mkCall E0 (copy_frame 0 f10) true (e_i0 e0) (e_i2 e0) (e_maxlen e1 - 1) k0])).
-  { unfold retis_path0, first_frame, second_frame. rewrite Ho1. cbn [nth_error].
+                   [mkCall E0 (copy_frame 0 f10) true (e_i0 e0) (e_i2 e0) (e_maxlen e0 - 1) k0])).
+  { unfold retis_path0, retis_path0_g, first_frame, second_frame. rewrite Ho1. cbn [nth_error].
     rewrite (engine_call_run _ _ _ _ _ _ _ _ _ _ Hst0 Hk0m1). cbn [pts].
     set (P := fst (append_all (empty_path (e_maxlen e0) 0) (rev (firstn k0 s0)))).
     assert (HP : P = mkP (rev (firstn k0 s0)) (e_maxlen e0) 0).
@@ -803,7 +803,8 @@ Proof.
     fold tmp1. fold Q. fold path1. rewrite Hlen1.
     destruct (Nat.leb_spec (e_maxlen e1) (S k1)); [lia|]. destruct (Nat.ltb_spec (S k1) 3); [lia|]. reflexivity. }
   exists path1. split; [exact HP1|]. split; [apply HP1m|]. split; [apply HP1m|].
-  unfold retis_swap_zero. rewrite Hep, Hearly. cbn [is_R]. rewrite E0, E1. cbn [is_acc andb app].
+  unfold retis_swap_zero, retis_swap_zero_g. change (retis_path0_g dumpf true) with (retis_path0 dumpf).
+  rewrite Hep, Hearly. cbn [is_R]. rewrite E0, E1. cbn [is_acc andb app].
   rewrite Hwf0, Hwf1. cbn [orb andb negb].
   rewrite (final_weight_not_wf _ _ Hwf0), (final_weight_not_wf _ _ Hwf1). reflexivity.
 Qed.
@@ -991,7 +992,7 @@ Lemma det_retis_shape n e0 e1 old0 old1 new0 new1 st calls nd :
     map erase (pts (sp_path new1)) =
       erase (dump idump DSecondLast f0m2) :: map erase (firstn k1 (det_stream n (copy_frame 0 f0l) false)) /\
     (2 <= k0 <= n)%nat /\ (k0 + 1 < e_maxlen e0)%nat /\
-    ((k0 < e_maxlen e1 - 1)%nat -> stops_at (e_i0 e0) (e_i2 e0) (det_stream n (copy_frame 0 f10) true) k0) /\
+    stops_at (e_i0 e0) (e_i2 e0) (det_stream n (copy_frame 0 f10) true) k0 /\
     (2 <= k1 <= n)%nat /\ stops_at (e_i0 e1) (e_i2 e1) (det_stream n (copy_frame 0 f0l) false) k1.
 Proof.
   unfold SwapM.det_retis.
@@ -999,7 +1000,7 @@ Proof.
   destruct (last_frame (sp_path old0)) as [g|] eqn:Eg; [|discriminate].
   intros H. apply retis_acc_struct in H as (_ & _ & _ & Hsh).
   destruct Hsh as (f10 & f11 & tl1 & pre0 & f0m2 & f0l & s0 & s1 & rest & k0 & k1 & Ho1 & Ho0 & Hs & Hp0 & _ & _ & Hp1 & _ & _ &
-          Hk0 & Hk0m & _ & _ & Hstop0 & Hk1 & _ & Hstop1 & _).
+          Hk0 & Hk0m & Hstop0 & Hk1 & _ & Hstop1 & _).
   unfold first_frame in Ef. rewrite Ho1 in Ef. injection Ef as <-.
   unfold last_frame in Eg. rewrite Ho0, rev_app_distr in Eg. injection Eg as <-.
   injection Hs as <- <- _.
@@ -1030,12 +1031,11 @@ Proof. intros [[t ->]|[t ->]]; [left|right]; rewrite map_app; eauto. Qed.
 Theorem swap_twice_id n e0 e1 old0 old1 a0 b0 new0 new1 st calls nd new0' new1' st' calls' nd' :
   phys_path a0 (sp_path old0) -> phys_path b0 (sp_path old1) ->
   minus_shape e0 (sp_path old0) -> plus_shape e1 (sp_path old1) ->
-  (e_maxlen e0 <= e_maxlen e1)%nat ->
   det_retis n e0 e1 old0 old1 = Out true new0 new1 st calls nd ->
   det_retis n e0 e1 new0 new1 = Out true new0' new1' st' calls' nd' ->
   orders (sp_path new0') = orders (sp_path old0) /\ orders (sp_path new1') = orders (sp_path old1).
 Proof.
-  intros [Hpa Hoa] [Hpb Hob] (fa & mid0 & fl & Hsa & Hca & Hma) (fb & mid1 & fz & Hsb & Hcz & Hmb) Hml D1 D2.
+  intros [Hpa Hoa] [Hpb Hob] (fa & mid0 & fl & Hsa & Hca & Hma) (fb & mid1 & fz & Hsb & Hcz & Hmb) D1 D2.
   apply det_retis_shape in D1.
   destruct D1 as (f10 & f11 & tl1 & pre0 & f0m2 & f0l & k0 & k1 & Ho1 & Ho0 & Hn0 & Hn1 & Hk0 & _ & _ & Hk1 & _).
   apply det_retis_shape in D2.
@@ -1073,7 +1073,7 @@ Proof.
   - (* [0-] *)
     unfold orders. rewrite HN0, Ho0, map_app, map_rev. cbn [map dump ford].
     rewrite orders_back_prefix by lia. change (phys (copy_frame 0 F10)) with (phys F10). rewrite HF10, HF11.
-    assert (Hst : stops_at (e_i0 e0) (e_i2 e0) (det_stream n (copy_frame 0 F10) true) K0) by (apply HST0; lia).
+    pose proof HST0 as Hst.
     apply stops_at_fcross in Hst. rewrite orders_back_prefix in Hst by lia.
     change (phys (copy_frame 0 F10)) with (phys F10) in Hst. rewrite HF10 in Hst.
     assert (Hsplit : pre0 ++ [f0m2] = fa :: mid0 /\ f0l = fl).
@@ -1164,7 +1164,6 @@ Qed.
 Theorem swap_back_accepted n e0 e1 old0 old1 a0 b0 new0 new1 st calls nd :
   phys_path a0 (sp_path old0) -> phys_path b0 (sp_path old1) ->
   minus_valid e0 (sp_path old0) -> plus_valid e1 (sp_path old1) ->
-  (e_maxlen e0 <= e_maxlen e1)%nat ->
   (plen (sp_path old0) < e_maxlen e0)%nat -> (plen (sp_path old1) < e_maxlen e1)%nat ->
   (plen (sp_path old0) - 1 <= n)%nat -> (plen (sp_path old1) - 1 <= n)%nat ->
   e_i0 e0 <= e_i1 e0 <= e_i2 e0 -> e_i0 e0 < e_i2 e0 -> e_i2 e0 = e_i0 e1 ->
@@ -1173,7 +1172,7 @@ Theorem swap_back_accepted n e0 e1 old0 old1 a0 b0 new0 new1 st calls nd :
   exists new0' new1' calls', det_retis n e0 e1 new0 new1 = Out true new0' new1' ACC calls' 0.
 Proof.
   intros [Hpa Hoa] [Hpb Hob] (fa & mid0 & fl & Hsa & Hmid0 & Hca & HscL & Hma & Hfl)
-         (fb & mid1 & fz & Hsb & Hmid1 & Hcz & Hmb) Hml Hlen0 Hlen1 Hn0' Hn1' Hio Hlt Hlam Hwf D1.
+         (fb & mid1 & fz & Hsb & Hmid1 & Hcz & Hmb) Hlen0 Hlen1 Hn0' Hn1' Hio Hlt Hlam Hwf D1.
   apply det_retis_shape in D1.
   destruct D1 as (f10 & f11 & tl1 & pre0 & f0m2 & f0l & k0 & k1 & Ho1 & Ho0 & Hn0 & Hn1 & Hk0 & _ & _ & Hk1 & _).
   (* the old [0-] path in terms of the dynamics *)
@@ -1265,7 +1264,6 @@ Qed.
 Theorem swap_twice_restores n e0 e1 old0 old1 a0 b0 new0 new1 st calls nd :
   phys_path a0 (sp_path old0) -> phys_path b0 (sp_path old1) ->
   minus_valid e0 (sp_path old0) -> plus_valid e1 (sp_path old1) ->
-  (e_maxlen e0 <= e_maxlen e1)%nat ->
   (plen (sp_path old0) < e_maxlen e0)%nat -> (plen (sp_path old1) < e_maxlen e1)%nat ->
   (plen (sp_path old0) - 1 <= n)%nat -> (plen (sp_path old1) - 1 <= n)%nat ->
   e_i0 e0 <= e_i1 e0 <= e_i2 e0 -> e_i0 e0 < e_i2 e0 -> e_i2 e0 = e_i0 e1 ->
@@ -1275,8 +1273,8 @@ Theorem swap_twice_restores n e0 e1 old0 old1 a0 b0 new0 new1 st calls nd :
     det_retis n e0 e1 new0 new1 = Out true new0' new1' ACC calls' 0 /\
     orders (sp_path new0') = orders (sp_path old0) /\ orders (sp_path new1') = orders (sp_path old1).
 Proof.
-  intros Ha Hb Hm Hp Hml H1 H2 H3 H4 H5 H6 H7 H8 D1.
-  destruct (swap_back_accepted n e0 e1 old0 old1 a0 b0 new0 new1 st calls nd Ha Hb Hm Hp Hml H1 H2 H3 H4 H5 H6 H7 H8 D1)
+  intros Ha Hb Hm Hp H1 H2 H3 H4 H5 H6 H7 H8 D1.
+  destruct (swap_back_accepted n e0 e1 old0 old1 a0 b0 new0 new1 st calls nd Ha Hb Hm Hp H1 H2 H3 H4 H5 H6 H7 H8 D1)
     as (new0' & new1' & calls' & D2).
   exists new0', new1', calls'. split; [exact D2|].
   eapply swap_twice_id; try eassumption; [apply minus_valid_shape|apply plus_valid_shape]; assumption.
@@ -1340,9 +1338,9 @@ Lemma det_retis2_shape n e0 e1 old0 old1 new0 new1 st calls nd :
     map erase (pts (sp_path new1)) =
       erase (dump idump DSecondLast f0m2) :: map erase (firstn k1 (stream1 n (copy_frame 0 f0l) false)) /\
     (2 <= k0 <= n)%nat /\ (k0 + 1 < e_maxlen e0)%nat /\
-    ((k0 < e_maxlen e1 - 1)%nat -> stops_at (e_i0 e0) (e_i2 e0) (stream0 n (copy_frame 0 f10) true) k0) /\
+    stops_at (e_i0 e0) (e_i2 e0) (stream0 n (copy_frame 0 f10) true) k0 /\
     (2 <= k1 <= n)%nat /\ stops_at (e_i0 e1) (e_i2 e1) (stream1 n (copy_frame 0 f0l) false) k1 /\
-    calls = [mkCall E0 (copy_frame 0 f10) true (e_i0 e0) (e_i2 e0) (e_maxlen e1 - 1) k0;
+    calls = [mkCall E0 (copy_frame 0 f10) true (e_i0 e0) (e_i2 e0) (e_maxlen e0 - 1) k0;
              mkCall E1 (copy_frame 0 f0l) false (e_i0 e1) (e_i2 e1) (e_maxlen e1 - 1) k1].
 Proof.
   unfold SwapM.det_retis2.
@@ -1351,7 +1349,7 @@ Proof.
   rewrite eng_stream_E0, eng_stream_E1.
   intros H. apply retis_acc_struct in H as (_ & _ & _ & Hsh).
   destruct Hsh as (f10 & f11 & tl1 & pre0 & f0m2 & f0l & s0 & s1 & rest & k0 & k1 & Ho1 & Ho0 & Hs & Hp0 & _ & _ & Hp1 & _ & _ &
-          Hk0 & Hk0m & _ & _ & Hstop0 & Hk1 & _ & Hstop1 & _ & _ & _ & Hc).
+          Hk0 & Hk0m & Hstop0 & Hk1 & _ & Hstop1 & _ & _ & _ & Hc).
   unfold first_frame in Ef. rewrite Ho1 in Ef. injection Ef as <-.
   unfold last_frame in Eg. rewrite Ho0, rev_app_distr in Eg. injection Eg as <-.
   injection Hs as <- <- _.
@@ -1404,12 +1402,11 @@ Qed.
 Theorem swap_twice_id2 n e0 e1 old0 old1 a0 b0 new0 new1 st calls nd new0' new1' st' calls' nd' :
   phys_path X T0 R0 ord dec a0 (sp_path old0) -> phys_path X T1 R1 ord dec b0 (sp_path old1) ->
   minus_shape e0 (sp_path old0) -> plus_shape e1 (sp_path old1) ->
-  (e_maxlen e0 <= e_maxlen e1)%nat ->
   det_retis2 n e0 e1 old0 old1 = Out true new0 new1 st calls nd ->
   det_retis2 n e0 e1 new0 new1 = Out true new0' new1' st' calls' nd' ->
   orders (sp_path new0') = orders (sp_path old0) /\ orders (sp_path new1') = orders (sp_path old1).
 Proof.
-  intros [Hpa Hoa] [Hpb Hob] (fa & mid0 & fl & Hsa & Hca & Hma) (fb & mid1 & fz & Hsb & Hcz & Hmb) Hml D1 D2.
+  intros [Hpa Hoa] [Hpb Hob] (fa & mid0 & fl & Hsa & Hca & Hma) (fb & mid1 & fz & Hsb & Hcz & Hmb) D1 D2.
   apply det_retis2_shape in D1.
   destruct D1 as (f10 & f11 & tl1 & pre0 & f0m2 & f0l & k0 & k1 & Ho1 & Ho0 & Hn0 & Hn1 & Hk0 & _ & _ & Hk1 & _).
   apply det_retis2_shape in D2.
@@ -1447,7 +1444,7 @@ Proof.
   - (* [0-]: all [0-] dynamics *)
     unfold orders. rewrite HN0, Ho0, map_app, map_rev. cbn [map dump ford].
     rewrite obp0 by lia. change (phys0 (copy_frame 0 F10)) with (phys0 F10). rewrite HF10, HF11.
-    assert (Hst : stops_at (e_i0 e0) (e_i2 e0) (stream0 n (copy_frame 0 F10) true) K0) by (apply HST0; lia).
+    pose proof HST0 as Hst.
     apply stops_at_fcross in Hst. rewrite obp0 in Hst by lia.
     change (phys0 (copy_frame 0 F10)) with (phys0 F10) in Hst. rewrite HF10 in Hst.
     assert (Hsplit : pre0 ++ [f0m2] = fa :: mid0 /\ f0l = fl).
@@ -1488,7 +1485,6 @@ Qed.
 Theorem swap_back_accepted2 n e0 e1 old0 old1 a0 b0 new0 new1 st calls nd :
   phys_path X T0 R0 ord dec a0 (sp_path old0) -> phys_path X T1 R1 ord dec b0 (sp_path old1) ->
   minus_valid e0 (sp_path old0) -> plus_valid e1 (sp_path old1) ->
-  (e_maxlen e0 <= e_maxlen e1)%nat ->
   (plen (sp_path old0) < e_maxlen e0)%nat -> (plen (sp_path old1) < e_maxlen e1)%nat ->
   (plen (sp_path old0) - 1 <= n)%nat -> (plen (sp_path old1) - 1 <= n)%nat ->
   e_i0 e0 <= e_i1 e0 <= e_i2 e0 -> e_i0 e0 < e_i2 e0 -> e_i2 e0 = e_i0 e1 ->
@@ -1497,7 +1493,7 @@ Theorem swap_back_accepted2 n e0 e1 old0 old1 a0 b0 new0 new1 st calls nd :
   exists new0' new1' calls', det_retis2 n e0 e1 new0 new1 = Out true new0' new1' ACC calls' 0.
 Proof.
   intros [Hpa Hoa] [Hpb Hob] (fa & mid0 & fl & Hsa & Hmid0 & Hca & HscL & Hma & Hfl)
-         (fb & mid1 & fz & Hsb & Hmid1 & Hcz & Hmb) Hml Hlen0 Hlen1 Hn0' Hn1' Hio Hlt Hlam Hwf D1.
+         (fb & mid1 & fz & Hsb & Hmid1 & Hcz & Hmb) Hlen0 Hlen1 Hn0' Hn1' Hio Hlt Hlam Hwf D1.
   apply det_retis2_shape in D1.
   destruct D1 as (f10 & f11 & tl1 & pre0 & f0m2 & f0l & k0 & k1 & Ho1 & Ho0 & Hn0 & Hn1 & Hk0 & _ & _ & Hk1 & _).
   unfold plen in *. unfold orders in Hoa, Hob.
@@ -1587,7 +1583,6 @@ Qed.
 Theorem swap_twice_restores2 n e0 e1 old0 old1 a0 b0 new0 new1 st calls nd :
   phys_path X T0 R0 ord dec a0 (sp_path old0) -> phys_path X T1 R1 ord dec b0 (sp_path old1) ->
   minus_valid e0 (sp_path old0) -> plus_valid e1 (sp_path old1) ->
-  (e_maxlen e0 <= e_maxlen e1)%nat ->
   (plen (sp_path old0) < e_maxlen e0)%nat -> (plen (sp_path old1) < e_maxlen e1)%nat ->
   (plen (sp_path old0) - 1 <= n)%nat -> (plen (sp_path old1) - 1 <= n)%nat ->
   e_i0 e0 <= e_i1 e0 <= e_i2 e0 -> e_i0 e0 < e_i2 e0 -> e_i2 e0 = e_i0 e1 ->
@@ -1598,8 +1593,8 @@ Theorem swap_twice_restores2 n e0 e1 old0 old1 a0 b0 new0 new1 st calls nd :
     map c_eng calls' = [E0; E1] /\
     orders (sp_path new0') = orders (sp_path old0) /\ orders (sp_path new1') = orders (sp_path old1).
 Proof.
-  intros Ha Hb Hm Hp Hml H1 H2 H3 H4 H5 H6 H7 H8 D1.
-  destruct (swap_back_accepted2 n e0 e1 old0 old1 a0 b0 new0 new1 st calls nd Ha Hb Hm Hp Hml H1 H2 H3 H4 H5 H6 H7 H8 D1)
+  intros Ha Hb Hm Hp H1 H2 H3 H4 H5 H6 H7 H8 D1.
+  destruct (swap_back_accepted2 n e0 e1 old0 old1 a0 b0 new0 new1 st calls nd Ha Hb Hm Hp H1 H2 H3 H4 H5 H6 H7 H8 D1)
     as (new0' & new1' & calls' & D2).
   exists new0', new1', calls'. split; [exact D2|]. split.
   - destruct (det_retis2_engines _ _ _ _ _ _ _ _ _ _ D2) as (? & ? & _ & _ & He & _). exact He.
@@ -1649,7 +1644,6 @@ Qed.
 
 Theorem retis_swap_valid_move e0 e1 old0 old1 streams draws sp0 sp1 st calls nd :
   retis_swap_zero dumpf e0 e1 old0 old1 streams draws = Out true sp0 sp1 st calls nd ->
-  (e_maxlen e0 <= e_maxlen e1)%nat ->
   e_i0 e0 <= e_i1 e0 <= e_i2 e0 ->
   (forall f10 f11 tl, pts (sp_path old1) = f10 :: f11 :: tl -> e_i2 e0 <= ford f11) ->
   (forall pre a b, pts (sp_path old0) = pre ++ [a; b] -> ford a <= e_i0 e1) ->
@@ -1683,7 +1677,7 @@ Theorem retis_swap_engines e0 e1 old0 old1 streams draws sp0 sp1 st calls nd :
 Proof.
   intros H. apply retis_acc_struct in H as (_ & _ & _ & Hsh).
   destruct Hsh as (f10 & f11 & tl1 & pre0 & f0m2 & f0l & s0 & s1 & rest & k0 & k1 & Ho1 & Ho0 & Hs & Hp0 & _ & _ & Hp1 & _ & _ &
-          _ & _ & _ & _ & _ & _ & _ & _ & _ & _ & _ & ->).
+          _ & _ & _ & _ & _ & _ & _ & _ & _ & ->).
   exists f10, f11, tl1, pre0, f0m2, f0l, s0, s1, rest, k0, k1.
   repeat split; assumption.
 Qed.
@@ -1696,7 +1690,7 @@ Theorem retis_acc_two_calls e0 e1 old0 old1 streams draws sp0 sp1 st calls nd :
 Proof.
   intros H. apply retis_acc_struct in H as (_ & _ & _ & Hsh).
   destruct Hsh as (f10 & f11 & tl1 & pre0 & f0m2 & f0l & s0 & s1 & rest & k0 & k1 & _ & _ & _ & _ & _ & _ & _ & _ & _ &
-          _ & _ & _ & _ & _ & _ & _ & _ & _ & Hep & Hearly & ->).
+          _ & _ & _ & _ & _ & _ & _ & Hep & Hearly & ->).
   repeat split; assumption.
 Qed.
 
@@ -1729,12 +1723,12 @@ Lemma quantis_complete_acc e0 e1 tmp0 tmp1 sc streams calls nd p0 p1 st calls' n
     pts (sp_path p0) = rev (firstn k2 s2) ++ tl (pts tmp0) /\
     map erase (pts (sp_path p1)) = map erase (pts tmp1) ++ map erase (tl (firstn k3 s3)) /\
     (1 <= k2 <= length s2)%nat /\ (1 <= k3 <= length s3)%nat /\
-    (3 <= plen (sp_path p0) < e_maxlen e0)%nat /\ (3 <= plen (sp_path p1) < e_maxlen e0)%nat /\
+    (3 <= plen (sp_path p0) < e_maxlen e0)%nat /\ (3 <= plen (sp_path p1) < e_maxlen e1)%nat /\
     e_i2 e0 <= ford t1l /\
     calls' = calls ++ [mkCall E0 (copy_frame 0 t00) true (e_i0 e0) (e_i2 e0) (e_maxlen e0 - 1) k2;
-                       mkCall E1 (copy_frame 0 t1l) false (e_i0 e1) (e_i2 e1) (e_maxlen e0 - 1) k3].
+                       mkCall E1 (copy_frame 0 t1l) false (e_i0 e1) (e_i2 e1) (e_maxlen e1 - 1) k3].
 Proof.
-  unfold quantis_complete. intros H Htmp1.
+  unfold quantis_complete, quantis_complete_g. intros H Htmp1.
   destruct (first_frame tmp0) as [t00|] eqn:Et00; [|discriminate].
   destruct (negb sc); [discriminate|].
   destruct (engine_call _ _ streams _ true _ _) as [[[back0 str1] c2]|] eqn:E2; [|discriminate].
@@ -1745,9 +1739,9 @@ Proof.
   destruct (last_frame tmp1) as [t1l|] eqn:Et1l; [|discriminate].
   destruct (Z.ltb_spec (ford (copy_frame 0 t1l)) (e_i2 e0)) as [|Hge]; [discriminate|].
   destruct (engine_call _ _ str1 _ false _ _) as [[[forw1 str2] c3]|] eqn:E3; [|discriminate].
-  set (new1 := paste (reverse 0 tmp1 false) forw1 true (Some (e_maxlen e0))) in *.
+  set (new1 := paste (reverse 0 tmp1 false) forw1 true (Some (e_maxlen e1))) in *.
   destruct (start_point new1 _ _) as [sp|]; [|discriminate].
-  destruct (Nat.eqb_spec (plen new1) (e_maxlen e0)) as [|Hne1]; [discriminate|].
+  destruct (Nat.eqb_spec (plen new1) (e_maxlen e1)) as [|Hne1]; [discriminate|].
   destruct (Nat.ltb_spec (plen new1) 3) as [|Hge1]; [discriminate|].
   destruct sp; cbn [negb is_acc] in H; try discriminate.
   inversion H; subst; clear H. cbn [sp_path].
@@ -1759,9 +1753,9 @@ Proof.
   { pose proof (paste_pts back0 tmp0 true (e_maxlen e0)) as Hp. fold new0 in Hp. unfold forw_part in Hp. rewrite Ep2 in Hp.
     rewrite Hp. apply firstn_short. rewrite <- Hp. exact Hlt0. }
   assert (Hp1 : pts new1 = rev (pts (reverse 0 tmp1 false)) ++ tl (firstn k3 s3)).
-  { pose proof (paste_pts (reverse 0 tmp1 false) forw1 true (e_maxlen e0)) as Hp. fold new1 in Hp. unfold forw_part in Hp. rewrite Ep3 in Hp.
+  { pose proof (paste_pts (reverse 0 tmp1 false) forw1 true (e_maxlen e1)) as Hp. fold new1 in Hp. unfold forw_part in Hp. rewrite Ep3 in Hp.
     rewrite Hp. apply firstn_short. rewrite <- Hp.
-    assert (plen new1 <= e_maxlen e0)%nat.
+    assert (plen new1 <= e_maxlen e1)%nat.
     { unfold plen. rewrite Hp, firstn_length. lia. }
     unfold plen in *. lia. }
   split; [exact Hp0|].
@@ -1769,8 +1763,8 @@ Proof.
   { rewrite Hp1, map_app, map_rev, (reverse_frames 0 tmp1 false Htmp1), rev_involutive. reflexivity. }
   split; [lia|]. split; [lia|]. split; [lia|].
   split.
-  { assert (plen new1 <= e_maxlen e0)%nat.
-    { unfold plen. pose proof (paste_pts (reverse 0 tmp1 false) forw1 true (e_maxlen e0)) as Hp. fold new1 in Hp. rewrite Hp, firstn_length. lia. }
+  { assert (plen new1 <= e_maxlen e1)%nat.
+    { unfold plen. pose proof (paste_pts (reverse 0 tmp1 false) forw1 true (e_maxlen e1)) as Hp. fold new1 in Hp. rewrite Hp, firstn_length. lia. }
     lia. }
   split; [cbn [copy_frame ford] in Hge; exact Hge|].
   rewrite <- app_assoc. reflexivity.
@@ -1792,10 +1786,10 @@ Theorem quantis_junction e0 e1 b0 b1 old0 old1 streams draws p0 p1 st calls nd :
     orders (sp_path p0) = back ++ [ford f10; ford H0] /\
     orders (sp_path p1) = ford f0m2 :: ford H1 :: forw /\
     ford f10 < e_i2 e0 < ford H0 /\ ford f0m2 < e_i2 e0 < ford H1 /\
-    (3 <= plen (sp_path p0) < e_maxlen e0)%nat /\ (3 <= plen (sp_path p1) < e_maxlen e0)%nat /\
+    (3 <= plen (sp_path p0) < e_maxlen e0)%nat /\ (3 <= plen (sp_path p1) < e_maxlen e1)%nat /\
     st = ACC /\ length calls = 4%nat /\ map c_eng calls = [E0; E1; E0; E1].
 Proof.
-  unfold quantis_swap_zero.
+  unfold quantis_swap_zero, quantis_swap_zero_g. change (quantis_complete_g true) with quantis_complete.
   destruct (first_frame (sp_path old1)) as [f10|] eqn:Ef10; [|discriminate].
   destruct (last2_frame (sp_path old0)) as [f0m2|] eqn:Ef0m2; [|discriminate].
   destruct (is_none _ || is_none _); [discriminate|].
@@ -1869,7 +1863,7 @@ Lemma quantis_complete_engines e0 e1 tmp0 tmp1 sc streams calls nd acc p0 p1 st 
   quantis_complete e0 e1 tmp0 tmp1 sc streams calls nd = Out acc p0 p1 st calls' nd' ->
   exists k, map c_eng calls' = map c_eng calls ++ firstn k [E0; E1].
 Proof.
-  unfold quantis_complete.
+  unfold quantis_complete, quantis_complete_g.
   destruct (first_frame tmp0); [|discriminate].
   destruct (negb sc).
   { intros H; inversion H; subst. exists 0%nat. symmetry; apply app_nil_r. }
@@ -1897,7 +1891,7 @@ Theorem quantis_calls_engines e0 e1 b0 b1 old0 old1 streams draws acc p0 p1 st c
   quantis_swap_zero vpot_of expf e0 e1 b0 b1 old0 old1 streams draws = Out acc p0 p1 st calls nd ->
   exists k, map c_eng calls = firstn k [E0; E1; E0; E1].
 Proof.
-  unfold quantis_swap_zero.
+  unfold quantis_swap_zero, quantis_swap_zero_g. change (quantis_complete_g true) with quantis_complete.
   destruct (first_frame (sp_path old1)) as [f10|]; [|discriminate].
   destruct (last2_frame (sp_path old0)) as [f0m2|]; [|discriminate].
   destruct (is_none _ || is_none _).
@@ -1968,7 +1962,7 @@ Lemma retis_path0_status e0 e1 allowed old1 streams path0 st0 streams1 calls :
   (st0 = BTX <-> plen path0 = e_maxlen e0) /\ (st0 = ACC -> (3 <= plen path0)%nat) /\
   (st0 = BTX \/ st0 = BTS \/ st0 = ZML \/ st0 = ACC).
 Proof.
-  unfold retis_path0. destruct (first_frame old1) as [f10|]; [|discriminate].
+  unfold retis_path0, retis_path0_g. destruct (first_frame old1) as [f10|]; [|discriminate].
   match goal with |- context [if allowed then ?a else ?b] => destruct (if allowed then a else b) as [[[ptmp str1] cs]|] end; [|discriminate].
   destruct (second_frame old1) as [f11|]; [|discriminate].
   intros H. inversion H; subst; clear H.
@@ -1983,18 +1977,16 @@ Proof.
 Qed.
 
 (* ... which is what happens when the backward run is not stopped by an interface within the first
-   maxlength([0-]) - 1 frames, provided the container (sized maxlength([0+]) - 1 in the code) is not
-   the smaller one *)
+   maxlength([0-]) - 1 frames (the container of that run has exactly maxlength([0-]) - 1 frames) *)
 Lemma retis_path0_too_long e0 e1 old1 s0 rest path0 st0 streams1 calls :
   retis_path0 dumpf e0 e1 true old1 (s0 :: rest) = Ok (path0, st0, streams1, calls) ->
-  (e_maxlen e0 <= e_maxlen e1)%nat ->
   (forall f, In f (firstn (e_maxlen e0 - 1) s0) -> crossedb (e_i0 e0) (e_i2 e0) f = false) ->
   plen path0 = e_maxlen e0 /\ streams1 = rest.
 Proof.
-  unfold retis_path0. destruct (first_frame old1) as [f10|]; [|discriminate].
+  unfold retis_path0, retis_path0_g. destruct (first_frame old1) as [f10|]; [|discriminate].
   destruct (engine_call _ _ (s0 :: rest) _ true _ _) as [[[ptmp str1] c]|] eqn:E; [|discriminate].
   destruct (second_frame old1) as [f11|]; [|discriminate].
-  intros H Hml Hno.
+  intros H Hno.
   apply (engine_call_uses _ _ _ _ _ _ _ _ _ _ _ (e_maxlen e0 - 1)%nat) in E; [|lia|].
   2:{ intros s0' tl' [= <- <-]. exact Hno. }
   destruct E as (s0' & k & [= <- <-] & Ep & Ek & [_ Ekl] & ->).
@@ -2069,7 +2061,8 @@ Lemma retis_out_inv e0 e1 old0 old1 streams draws acc sp0 sp1 st calls nd :
     (st0 <> ACC -> acc = false /\ st = st0 /\ sp_status sp0 = st0) /\
     (st1 <> ACC -> acc = false /\ sp_status sp1 = st1 /\ (st0 = ACC -> st = st1 /\ sp_status sp0 = st1)).
 Proof.
-  unfold retis_swap_zero. intros H Hearly. rewrite Hearly in H.
+  unfold retis_swap_zero, retis_swap_zero_g. change (retis_path0_g dumpf true) with (retis_path0 dumpf).
+  intros H Hearly. rewrite Hearly in H.
   destruct (end_point (sp_path old0) (e_i0 e0) (e_i2 e0)) as [ep|]; [|discriminate].
   destruct (retis_path0 dumpf e0 e1 (is_R ep) (sp_path old1) streams) as [[[[path0 st0] str1] calls0]|] eqn:E0; [|discriminate].
   destruct (retis_path1 dumpf e0 e1 (is_R ep) (sp_path old0) str1) as [[[[path1 st1] str2] calls1]|] eqn:E1; [|discriminate].
@@ -2100,12 +2093,11 @@ Proof.
 Qed.
 
 (* A swap that cannot complete a new path below that path's OWN limit is rejected with the
-   corresponding status.  maxlength([0-]) <= maxlength([0+]) as in C11_swap_valid. *)
+   corresponding status, whatever the two limits. *)
 Theorem retis_swap_limit_reject e0 e1 old0 old1 s0 s1 rest draws acc sp0 sp1 st calls nd :
   retis_swap_zero dumpf e0 e1 old0 old1 (s0 :: s1 :: rest) draws = Out acc sp0 sp1 st calls nd ->
   lm1_early e0 (sp_path old0) = false ->
   end_point (sp_path old0) (e_i0 e0) (e_i2 e0) = Some SR ->
-  (e_maxlen e0 <= e_maxlen e1)%nat ->
   ((forall f, In f (firstn (e_maxlen e0 - 1) s0) -> crossedb (e_i0 e0) (e_i2 e0) f = false) ->
      acc = false /\ st = BTX /\ sp_status sp0 = BTX /\ plen (sp_path sp0) = e_maxlen e0) /\
   ((forall f, In f (firstn (e_maxlen e1 - 1) s1) -> crossedb (e_i0 e1) (e_i2 e1) f = false) ->
@@ -2113,18 +2105,18 @@ Theorem retis_swap_limit_reject e0 e1 old0 old1 s0 s1 rest draws acc sp0 sp1 st 
      (plen (sp_path sp0) = e_maxlen e0 /\ st = BTX \/
       plen (sp_path sp0) <> e_maxlen e0 /\ (st = FTX /\ sp_status sp0 = FTX \/ st = BTS \/ st = ZML))).
 Proof.
-  intros H Hearly Hep Hml.
+  intros H Hearly Hep.
   apply retis_out_inv in H; [|exact Hearly].
   destruct H as (ep & st0 & st1 & str1 & str2 & calls0 & calls1 & Hep' & H0 & H1 & Hcalls & Hacc & Hn0 & Hn1).
   rewrite Hep in Hep'. injection Hep' as <-. cbn [is_R] in H0, H1.
   pose proof (retis_path0_status _ _ _ _ _ _ _ _ _ H0) as (Hb & _ & Hcases0).
   split.
-  - intros Hno. destruct (retis_path0_too_long _ _ _ _ _ _ _ _ _ H0 Hml Hno) as [Hlen _].
+  - intros Hno. destruct (retis_path0_too_long _ _ _ _ _ _ _ _ _ H0 Hno) as [Hlen _].
     apply Hb in Hlen as Hst0. subst st0.
     destruct (Hn0 ltac:(discriminate)) as (Ha & Hs & Hs0). repeat split; assumption.
   - intros Hno.
     assert (Hstr : str1 = s1 :: rest).
-    { clear - H0. unfold retis_path0 in H0. destruct (first_frame (sp_path old1)); [|discriminate].
+    { clear - H0. unfold retis_path0, retis_path0_g in H0. destruct (first_frame (sp_path old1)); [|discriminate].
       destruct (engine_call _ _ (s0 :: s1 :: rest) _ true _ _) as [[[ptmp s'] c]|] eqn:E; [|discriminate].
       apply engine_call_inv in E. destruct E as (s0' & k & [= <- <-] & _).
       destruct (second_frame (sp_path old1)); [|discriminate]. inversion H0. reflexivity. }
@@ -2146,15 +2138,14 @@ Qed.
 
 End Limits.
 
-(* an accepted QuanTIS swap respects both limits when maxlength([0-]) <= maxlength([0+]) (the move
-   reads the [0-] limit for both paths) *)
+(* an accepted QuanTIS swap respects both limits, whatever they are (each path is measured
+   against the limit of its own ensemble) *)
 Theorem quantis_own_limits vpot_of expf e0 e1 b0 b1 old0 old1 streams draws p0 p1 st calls nd :
   quantis_swap_zero vpot_of expf e0 e1 b0 b1 old0 old1 streams draws = Out true p0 p1 st calls nd ->
   first_frame_honest streams calls ->
-  (e_maxlen e0 <= e_maxlen e1)%nat ->
   (3 <= plen (sp_path p0) < e_maxlen e0)%nat /\ (3 <= plen (sp_path p1) < e_maxlen e1)%nat.
 Proof.
-  intros H Hh Hml. apply quantis_junction in H; [|exact Hh].
+  intros H Hh. apply quantis_junction in H; [|exact Hh].
   destruct H as (f10 & f0m2 & g0 & H0 & r0 & g1 & H1 & r1 & srest & back & forw & _ & _ & _ & _ & _ & _ & _ & Hl0 & Hl1 & _).
   lia.
 Qed.
@@ -2271,20 +2262,40 @@ Proof.
 Qed.
 End Limits.
 
+(* ------------------------------------------------------------------ the code before the repair (fixed = false) *)
+
+(* with equal limits (infretis' own set-up: one shared tis_set) the repair changes nothing *)
+Lemma before_fix_same_on_equal_limits dumpf vpot_of expf e0 e1 :
+  e_maxlen e0 = e_maxlen e1 ->
+  retis_swap_zero_before_fix dumpf e0 e1 = retis_swap_zero dumpf e0 e1 /\
+  quantis_swap_zero_before_fix vpot_of expf e0 e1 = quantis_swap_zero vpot_of expf e0 e1.
+Proof.
+  intros Heq.
+  unfold retis_swap_zero_before_fix, retis_swap_zero, retis_swap_zero_g, retis_path0_g,
+         quantis_swap_zero_before_fix, quantis_swap_zero, quantis_swap_zero_g, quantis_complete_g.
+  rewrite Heq. split; reflexivity.
+Qed.
+
+(* the code before the repair accepted an incomplete new [0-] path; the code, on the same input,
+   accepts the complete one *)
 Lemma swap_valid_limit_order_refuted :
   exists dumpf e0 e1 old0 old1 streams sp0 sp1 calls,
     (e_maxlen e1 < e_maxlen e0)%nat /\ e_i0 e0 <= e_i1 e0 <= e_i2 e0 /\
     minus_valid e0 (sp_path old0) /\ plus_valid e1 (sp_path old1) /\
-    retis_swap_zero dumpf e0 e1 old0 old1 streams [] = Out true sp0 sp1 ACC calls 0 /\
+    retis_swap_zero_before_fix dumpf e0 e1 old0 old1 streams [] = Out true sp0 sp1 ACC calls 0 /\
     plen (sp_path sp0) = e_maxlen e1 /\
-    exists a rest, orders (sp_path sp0) = a :: rest /\ e_i0 e0 <= a <= e_i2 e0.
+    (exists a rest, orders (sp_path sp0) = a :: rest /\ e_i0 e0 <= a <= e_i2 e0) /\
+    exists sp0' sp1' calls',
+      retis_swap_zero dumpf e0 e1 old0 old1 streams [] = Out true sp0' sp1' ACC calls' 0 /\
+      orders (sp_path sp0') = [7; 0; 1; 2; 0; 1; 3] /\ sp_path sp1' = sp_path sp1.
 Proof.
   exists Limits.dumpf, Limits.e0b, Limits.e1b, Limits.old0, Limits.old1, Limits.streams_b.
   eexists _, _, _.
   split; [vm_compute; lia|]. split; [vm_compute; split; discriminate|].
   split; [exact Limits.old0_valid|]. split; [exact Limits.old1_valid|].
   split; [vm_compute; reflexivity|]. split; [reflexivity|].
-  exists 1, [2; 0; 1; 3]. split; [reflexivity|]. vm_compute. split; discriminate.
+  split; [exists 1, [2; 0; 1; 3]; split; [reflexivity|]; vm_compute; split; discriminate|].
+  eexists _, _, _. split; [vm_compute; reflexivity|]. split; reflexivity.
 Qed.
 
 Lemma forward_segment_minus_limit_refuted :
@@ -2314,31 +2325,41 @@ Proof.
   - eexists _, _, _. split; [vm_compute; reflexivity|]. reflexivity.
 Qed.
 
+(* the code before the repair measured the new [0+] path against the [0-] limit; the code, on the
+   same inputs, rejects the path that is not below the [0+] limit (FTX) and accepts the one that is *)
 Lemma quantis_limit_order_refuted :
   (exists vpot_of expf e0 e1 b0 b1 old0 old1 streams draws p0 p1 calls,
      (e_maxlen e1 < e_maxlen e0)%nat /\
-     quantis_swap_zero vpot_of expf e0 e1 b0 b1 old0 old1 streams draws = Out true p0 p1 ACC calls 1 /\
+     quantis_swap_zero_before_fix vpot_of expf e0 e1 b0 b1 old0 old1 streams draws = Out true p0 p1 ACC calls 1 /\
      first_frame_honest streams calls /\
-     (e_maxlen e1 <= plen (sp_path p1))%nat) /\
+     (e_maxlen e1 <= plen (sp_path p1))%nat /\
+     exists p0' p1' calls',
+       quantis_swap_zero vpot_of expf e0 e1 b0 b1 old0 old1 streams draws = Out false p0' p1' FTX calls' 1 /\
+       sp_status p1' = FTX) /\
   (exists vpot_of expf e0 e1 b0 b1 old0 old1 streams draws p0 p1 calls,
      (e_maxlen e0 < e_maxlen e1)%nat /\
-     quantis_swap_zero vpot_of expf e0 e1 b0 b1 old0 old1 streams draws = Out false p0 p1 FTX calls 1 /\
+     quantis_swap_zero_before_fix vpot_of expf e0 e1 b0 b1 old0 old1 streams draws = Out false p0 p1 FTX calls 1 /\
      sp_status p0 = ACC /\ sp_status p1 = FTX /\
      (3 <= plen (sp_path p1) < e_maxlen e1)%nat /\
-     exists pre b, orders (sp_path p1) = pre ++ [b] /\ b < e_i0 e1).
+     (exists pre b, orders (sp_path p1) = pre ++ [b] /\ b < e_i0 e1) /\
+     exists p0' p1' calls',
+       quantis_swap_zero vpot_of expf e0 e1 b0 b1 old0 old1 streams draws = Out true p0' p1' ACC calls' 1 /\
+       orders (sp_path p1') = orders (sp_path p1)).
 Proof.
   split.
   - exists Limits.vpot, (fun _ => 1%Q), (Limits.with_maxlen Limits.e0 8), (Limits.with_maxlen Limits.e1 4), 1%Q, 1%Q,
            Limits.old0, Limits.old1, Limits.qstreams, [(1 # 2)%Q].
     eexists _, _, _.
     split; [vm_compute; lia|]. split; [vm_compute; reflexivity|].
-    split; [|vm_compute; lia].
-    intros [|[|[|[|k]]]] c s g Hc Hs Hg; cbn in Hc, Hs; try (destruct k; discriminate);
-      injection Hc as <-; injection Hs as <-; injection Hg as <-; reflexivity.
+    split; [|split; [vm_compute; lia|]].
+    + intros [|[|[|[|k]]]] c s g Hc Hs Hg; cbn in Hc, Hs; try (destruct k; discriminate);
+        injection Hc as <-; injection Hs as <-; injection Hg as <-; reflexivity.
+    + eexists _, _, _. split; [vm_compute; reflexivity|]. reflexivity.
   - exists Limits.vpot, (fun _ => 1%Q), (Limits.with_maxlen Limits.e0 5), (Limits.with_maxlen Limits.e1 8), 1%Q, 1%Q,
            Limits.old0, Limits.old1, Limits.qstreams_long, [(1 # 2)%Q].
     eexists _, _, _.
     split; [vm_compute; lia|]. split; [vm_compute; reflexivity|].
     split; [reflexivity|]. split; [reflexivity|]. split; [vm_compute; lia|].
-    exists [0; 3; 4; 4], 1. split; [reflexivity|]. reflexivity.
+    split; [exists [0; 3; 4; 4], 1; split; reflexivity|].
+    eexists _, _, _. split; [vm_compute; reflexivity|]. reflexivity.
 Qed.
